@@ -21,7 +21,7 @@ meta = {"property": ID, "patch": os.path.basename(patch), "base": sh("git -C /re
 def rec(cmd, rc, out):
     meta["ran"].append({"cmd": cmd, "rc": rc, "tail": out[-400:]})
 try:
-    rc, out = sh("git apply --3way %s || git apply %s" % (patch, patch), cwd=wt)
+    rc, out = sh("git apply %s || git apply --3way %s" % (patch, patch), cwd=wt)
     rec("git apply", rc, out)
     if rc != 0:
         print("PATCH DOES NOT APPLY:", out[-500:]); sys.exit(3)
@@ -38,7 +38,7 @@ try:
         rc, out = sh(cmd, cwd=wt)
         rec("demo WITH change: " + cmd, rc, out)
         res[("with", tags)] = rc
-    sh("git diff > /tmp/sw/%s.patch && git checkout -- . " % ID, cwd=wt)
+    sh("git diff HEAD > /tmp/sw/%s.patch && git reset -q --hard HEAD" % ID, cwd=wt)
     for tags in ("", "-tags noasmtest"):
         cmd = "go test %s -vet=off -count=1 -run '%s' %s" % (tags, pat, pkg)
         rc, out = sh(cmd, cwd=wt)
